@@ -129,8 +129,19 @@ Proof.
   - apply flagged_ok in H. subst w'. apply fold_ok_good. intros; apply set_add_good.
   - apply flagged_ok in H. subst w'. apply fold_ok_good. intros; apply set_discard_good.
   - apply flagged_ok in H. subst w'. apply fold_ok_good. intros; apply set_discard_good.
-  - apply flagged_ok in H. subst w'. apply fold_ok_good. intros w1 v.
-    destruct (mem v (field w1 p fk)); [apply set_discard_good|apply set_add_good].
+  - pose proof (fold_ok_good (fun w c => set_discard w p c)
+                  (filter (fun c => mem c (field w p fk)) (dedup arg1)) w
+                  (fun w1 v => set_discard_good w1 p v)) as G1.
+    destruct (fold_ok (fun w c => set_discard w p c) (filter (fun c => mem c (field w p fk)) (dedup arg1)) w)
+      as [w1 ok1].
+    cbn [fst] in G1.
+    pose proof (fold_ok_good (fun w c => set_add w p c)
+                  (filter (fun c => negb (mem c (field w p fk))) (dedup arg1)) w1
+                  (fun w2 v => set_add_good w2 p v)) as G2.
+    destruct (fold_ok (fun w c => set_add w p c) (filter (fun c => negb (mem c (field w p fk))) (dedup arg1)) w1)
+      as [w2 ok2].
+    cbn [fst] in G2. apply flagged_ok in H. cbn [fst] in H. subst w'.
+    eapply good_trans; eassumption.
 Qed.
 
 (* ---------- the IR's module list ---------- *)
@@ -316,21 +327,54 @@ Proof.
   rewrite (good_kind _ _ ir G1). apply kir_not_kmod. exact Hir.
 Qed.
 
+Lemma dedup_incl : forall x l, In x (dedup l) -> In x l.
+Proof.
+  intros x l. induction l as [|a l IH]; intros H; [exact H|].
+  cbn [dedup] in H. destruct (mem a l).
+  - right. apply IH. exact H.
+  - destruct H as [H|H]; [left; exact H|right; apply IH; exact H].
+Qed.
+
+Lemma assign_slice_incl : forall l lo hi vs x, In x (assign_slice l lo hi vs) -> In x l \/ In x vs.
+Proof.
+  intros l lo hi vs x H. unfold assign_slice in H.
+  apply in_app_or in H. destruct H as [H|H].
+  - apply filter_In in H. destruct H as [H _]. left. rewrite <- (firstn_skipn lo l). apply in_or_app. left. exact H.
+  - apply in_app_or in H. destruct H as [H|H].
+    + right. apply dedup_incl. exact H.
+    + apply filter_In in H. destruct H as [H _]. left. rewrite <- (firstn_skipn hi l). apply in_or_app. right. exact H.
+Qed.
+
+(* assignment: hooks for the leavers, hooks for the enterers, then the list is stored *)
+Lemma ml_assign_good : forall w ir new, kindof w ir = KIR ->
+  (forall v, In v new -> ~ In v (kids w ir) -> kindof w v = KMod) ->
+  Good w (fst (ml_assign w ir new)).
+Proof.
+  intros w ir new Hir Hnew. unfold ml_assign. cbv zeta.
+  match goal with |- context [fold_ok ?f ?l w] =>
+    pose proof (fold_ok_good f l w (fun w1 v => ml_remove_hook_good w1 ir v)) as G1;
+    destruct (fold_ok f l w) as [w1 ok1] end.
+  cbn [fst] in G1.
+  assert (G2 : Good w1 (fst (fold_ok (fun w v => ml_add_hook w ir v)
+                               (filter (fun x => negb (mem x (kids w ir))) new) w1))).
+  { apply fold_ok_good'. intros w2 v Hin G. apply ml_add_hook_good.
+    rewrite (good_kind _ _ v G), (good_kind _ _ v G1). apply kmod_not_ksym.
+    apply filter_In in Hin. destruct Hin as [Hin Hm]. apply Hnew; [exact Hin|].
+    apply mem_false. destruct (mem v (kids w ir)); [discriminate|reflexivity]. }
+  destruct (fold_ok (fun w v => ml_add_hook w ir v) (filter (fun x => negb (mem x (kids w ir))) new) w1) as [w2 ok2].
+  cbn [fst] in *.
+  eapply good_trans; [exact G1|]. eapply good_trans; [exact G2|]. apply good_set_kids_nonmod.
+  rewrite (good_kind _ _ ir G2), (good_kind _ _ ir G1). apply kir_not_kmod. exact Hir.
+Qed.
+
 Lemma step_modsetitem_good : forall w ir i v w', kindof w ir = KIR -> kindof w v = KMod ->
   step w (OModSetItem ir i v) = Ok w' -> Good w w'.
 Proof.
   intros w ir i v w' Hir Hv H. unfold step in H.
   destruct (norm_index i (length (kids w ir))) as [k|]; [|discriminate].
-  destruct (nth_error (kids w ir) k) as [old|]; [|discriminate].
-  destruct (mem v (kids w ir) && negb (v =? old)); [discriminate|].
-  pose proof (ml_remove_hook_good w ir old) as G1.
-  destruct (ml_remove_hook w ir old) as [w1 ok1]. cbn [fst] in G1.
-  assert (Hv1 : kindof w1 v <> KSym) by (rewrite (good_kind _ _ v G1); apply kmod_not_ksym; exact Hv).
-  pose proof (ml_add_hook_good w1 ir v Hv1) as G2.
-  destruct (ml_add_hook w1 ir v) as [w2 ok2]. cbn [fst] in G2.
-  apply flagged_pair_ok in H. subst w'.
-  eapply good_trans; [exact G1|]. eapply good_trans; [exact G2|]. apply good_set_kids_nonmod.
-  rewrite (good_kind _ _ ir G2), (good_kind _ _ ir G1). apply kir_not_kmod. exact Hir.
+  apply flagged_ok in H. subst w'. apply ml_assign_good; [exact Hir|].
+  intros x Hx Hnx. apply assign_slice_incl in Hx. destruct Hx as [Hx|Hx]; [contradiction|].
+  destruct Hx as [Hx|[]]. subst x. exact Hv.
 Qed.
 
 Lemma step_modsetslice_good : forall w ir a b vs w', kindof w ir = KIR ->
@@ -338,19 +382,9 @@ Lemma step_modsetslice_good : forall w ir a b vs w', kindof w ir = KIR ->
   step w (OModSetSlice ir a b vs) = Ok w' -> Good w w'.
 Proof.
   intros w ir a b vs w' Hir Hvs H. unfold step in H. cbv zeta in H.
-  match type of H with (if ?c then _ else _) = _ => destruct c end; [discriminate|].
-  match type of H with context [fold_ok ?f ?l w] =>
-    pose proof (fold_ok_good f l w (fun w1 v => ml_remove_hook_good w1 ir v)) as G1;
-    destruct (fold_ok f l w) as [w1 ok1] end.
-  cbn [fst] in G1.
-  assert (G2 : Good w1 (fst (fold_ok (fun w v => ml_add_hook w ir v) vs w1))).
-  { apply fold_ok_good'. intros w2 v Hin G. apply ml_add_hook_good.
-    rewrite (good_kind _ _ v G), (good_kind _ _ v G1). apply kmod_not_ksym. apply is_k_kind.
-    rewrite forallb_forall in Hvs. apply Hvs. exact Hin. }
-  destruct (fold_ok (fun w v => ml_add_hook w ir v) vs w1) as [w2 ok2]. cbn [fst] in G2.
-  apply flagged_pair_ok in H. subst w'.
-  eapply good_trans; [exact G1|]. eapply good_trans; [exact G2|]. apply good_set_kids_nonmod.
-  rewrite (good_kind _ _ ir G2), (good_kind _ _ ir G1). apply kir_not_kmod. exact Hir.
+  apply flagged_ok in H. subst w'. apply ml_assign_good; [exact Hir|].
+  intros x Hx Hnx. apply assign_slice_incl in Hx. destruct Hx as [Hx|Hx]; [contradiction|].
+  apply is_k_kind. rewrite forallb_forall in Hvs. apply Hvs. exact Hx.
 Qed.
 
 Lemma step_modclear_good : forall w ir w', kindof w ir = KIR ->
